@@ -34,6 +34,8 @@ SetInit == S = {}
 (* ---- mutating operations ---- *)
 (* insert(k) -> Ok: idempotent *)
 Insert(k) == S' = S \cup {k}
+(* the same with the answer of contains(k) taken right after the call *)
+InsertSeen(k, after) == after = TRUE /\ Insert(k)
 (* insert(k) -> Err(_): refused, nothing changes (e.g. a key longer than a strategy stores) *)
 InsertRefused(k) == UNCHANGED S
 (* remove(k) -> Ok(r): r tells whether k was a member; afterwards it is not *)
@@ -42,8 +44,13 @@ Remove(k, r) == r = (k \in S) /\ S' = S \ {k}
 RemoveRefused(k) == UNCHANGED S
 (* bulk construction from a list of keys (build_from_keys, bulk_insert): the inserts of all of them *)
 InsertAll(ks) == S' = S \cup { ks[i] : i \in 1..Len(ks) }
-(* build_from_keys clears first *)
+(* a bulk builder (build_from_keys, build_from_sorted / _unsorted / _iter, ParallelTrieBuilder with any   *)
+(* chunking, from_trie) yields exactly the set of the keys it was given                                    *)
 Build(ks) == S' = { ks[i] : i \in 1..Len(ks) }
+(* clear() *)
+Clear == S' = {}
+(* a maintenance call (shrink_to_fit, refresh_replicas) must not change the content *)
+Maintenance == UNCHANGED S
 
 (* ---- read operations ---- *)
 Contains(k, r) == r = (k \in S) /\ UNCHANGED S
@@ -65,6 +72,19 @@ ProbeSetOK(U, n, c, ab) ==
     /\ \A i \in 1..Len(U) : c[i] = (U[i] \in S)
     /\ \A i \in 1..Len(ab) : ab[i][2] = (ab[i][1] \in S)
 ProbeSet(U, n, c, ab) == ProbeSetOK(U, n, c, ab) /\ UNCHANGED S
+(* every other way a type reports its size (stats().num_keys, statistics().num_keys, Trie::len, ...) and   *)
+(* its emptiness (is_empty) agrees with len(): tw = sequence of counts, em = sequence of is_empty answers  *)
+TwinsOK(tw, em) == /\ \A i \in 1..Len(tw) : tw[i] = Cardinality(S)
+                   /\ \A i \in 1..Len(em) : em[i] = (S = {})
+(* node-id view: ids = sequence of <<key, lookup_node_id(key).is_some(), restore_string(id)>>.  A key has  *)
+(* an id exactly when it is a member; restoring the id gives the key back (None = refused, never another   *)
+(* string); a non-member has no id                                                                         *)
+ProbeIdsOK(ids) ==
+    \A i \in 1..Len(ids) :
+        /\ ids[i][2] = (ids[i][1] \in S)
+        /\ ids[i][3] \in {None, Some(ids[i][1])}
+        /\ ~ids[i][2] => ids[i][3] = None
+ProbeIds(ids) == ProbeIdsOK(ids) /\ UNCHANGED S
 (* ks = keys();  pf = sequence of <<p, keys_with_prefix(p)>> *)
 ProbeKeysOK(ks, pf) ==
     /\ Lists(ks, S)
